@@ -2,6 +2,7 @@
 import MpirProofs.Lemmas.AllocSafeSetD
 import MpirProofs.Lemmas.AllocSafeMpqInv
 import MpirProofs.Lemmas.KernelsMem
+import MpirProofs.Lemmas.AliasMem
 import MpirProofs.Lemmas.Powm
 import MpirProofs.Lemmas.Gcd
 import MpirProofs.Lemmas.Bits
@@ -731,5 +732,124 @@ theorem gcdGeneral_refines (s : St) (g u v : Nat) (hs : s.ok = true) (hg : OWF (
   obtain ⟨R, r1, r2, r3⟩ := gcdTail_refines s g (natLimbs (Nat.gcd u' v')) gzl gzb hs hg gl gN gne hp.1
   refine ⟨R, r1, r2, ?_⟩
   rw [r3, gv, hp.2, ← gcd_odd_shift _ _ _ _ hUo hVo, ← hUv, ← hVv]
+
+/-! ## mpz/lcm.c, the general arm: the temporary g is never reallocated; mpz/divexact.c on it -/
+
+/-- the block of `x` is still the same block (same generation, same length), or it was replaced by a longer one -/
+def GenOk (s s' : St) (x : Nat) : Prop :=
+  ((s'.h x).gen = (s.h x).gen ∧ (s'.h x).buf.alloc = (s.h x).buf.alloc) ∨ (s.h x).buf.alloc < (s'.h x).buf.alloc
+
+theorem MPZ_REALLOC_genOk (s : St) (w n x : Nat) : GenOk s (MPZ_REALLOC s w n) x := by
+  unfold MPZ_REALLOC GenOk St.ALLOC
+  split
+  · rename_i h
+    by_cases hx : x = w
+    · subst hx; right; simp [_mpz_realloc]; omega
+    · left; simp [_mpz_realloc, upd, hx]
+  · left; exact ⟨rfl, rfl⟩
+
+theorem gcdTail_genOk (s : St) (g : Nat) (G : List Nat) (gzl gzb x : Nat) : GenOk s (gcdTail 0 false s g G gzl gzb) x := by
+  have key : ∀ n, GenOk s (MPZ_REALLOC s g n) x := fun n => MPZ_REALLOC_genOk s g n x
+  unfold gcdTail
+  simp only [Nat.sub_zero, Bool.false_or, MPN_ZERO, St.store]
+  split
+  · split
+    · have := key (G.length + gzl + if (Mpz.topLimb G >>> (64 - gzb) != 0) = true then 1 else 0)
+      unfold GenOk at this ⊢; simpa using this
+    · have := key (G.length + gzl + if (Mpz.topLimb G >>> (64 - gzb) != 0) = true then 1 else 0)
+      unfold GenOk at this ⊢; simpa using this
+  · have := key (G.length + gzl)
+    unfold GenOk at this ⊢; simpa using this
+
+/-- in the general arm mpz_gcd is `gcdTail` on a state with the same heap -/
+theorem gcd_general_shape (s : St) (g u v : Nat) (hu2 : 2 ≤ (s.h u).size.natAbs) (hv2 : 2 ≤ (s.h v).size.natAbs) :
+    ∃ c G gzl gzb, mpz_gcd s g u v = gcdTail 0 false (s.chk c) g G gzl gzb := by
+  have c1 : ((s.h u).size.natAbs == 0) = false := by simp; omega
+  have c2 : ((s.h v).size.natAbs == 0) = false := by simp; omega
+  have c3 : ((s.h u).size.natAbs == 1) = false := by simp; omega
+  have c4 : ((s.h v).size.natAbs == 1) = false := by simp; omega
+  unfold mpz_gcd gcd_
+  simp only [St.ABSIZ, c1, c2, c3, c4, Bool.false_eq_true, if_false]
+  unfold gcdGeneral
+  simp only []
+  generalize stripLow (s.rd (s.PTR u) (s.h u).size.natAbs) = a
+  generalize stripLow (s.rd (s.PTR v) (s.h v).size.natAbs) = b
+  obtain ⟨a1, a2, a3, a4, a5⟩ := a
+  obtain ⟨b1, b2, b3, b4, b5⟩ := b
+  simp only []
+  generalize (if a1 > b1 then (b1, b2) else if a1 < b1 then (a1, a2) else (a1, min a2 b2)) = p
+  obtain ⟨p1, p2⟩ := p
+  simp only []
+  have chk3 : ∀ (s : St) (a b c : Bool), ((s.chk a).chk b).chk c = s.chk (a && b && c) := by
+    intro s a b c; cases s; simp [St.chk, Bool.and_assoc]
+  rw [chk3]
+  exact ⟨_, _, _, _, rfl⟩
+
+theorem mpz_gcd_genOk (s : St) (g u v x : Nat) (hu2 : 2 ≤ (s.h u).size.natAbs) (hv2 : 2 ≤ (s.h v).size.natAbs) :
+    GenOk s (mpz_gcd s g u v) x := by
+  obtain ⟨c, G, gzl, gzb, e⟩ := gcd_general_shape s g u v hu2 hv2
+  rw [e]
+  exact gcdTail_genOk (s.chk c) g G gzl gzb x
+
+
+theorem toInt_natAbs' (m : Mpz.Mpz) : (Mpz.toInt m).natAbs = val m.d := by
+  unfold Mpz.toInt; split <;> simp
+
+theorem MPZ_REALLOC_noop' (s : St) (w n : Nat) (h : n ≤ (s.h w).buf.alloc) : MPZ_REALLOC s w n = s := by
+  unfold MPZ_REALLOC St.ALLOC; rw [if_neg (by omega)]
+
+/-- mpz_divexact (q, num, q) on a quotient variable that must not be reallocated (mpz_lcm's temporary g) -/
+theorem divexact_tmp (s : St) (q num : Nat) (hs : s.ok = true) (hq : OWF (s.h q)) (hn : OWF (s.h num))
+    (hle : (s.h q).size.natAbs ≤ (s.h num).size.natAbs) (hd1 : 1 ≤ (s.h q).size.natAbs)
+    (hfit : (s.h num).size.natAbs + 1 - (s.h q).size.natAbs ≤ (s.h q).buf.alloc) :
+    (divexact s q num q).ok = true ∧ OWF ((divexact s q num q).h q) ∧ (∀ x, x ≠ q → (divexact s q num q).h x = s.h x) ∧
+    ((divexact s q num q).h q).gen = (s.h q).gen ∧ ((divexact s q num q).h q).buf.alloc = (s.h q).buf.alloc ∧
+    (Mpz.toInt (view ((divexact s q num q).h q))).natAbs = val (view (s.h num)).d / val (view (s.h q)).d := by
+  have hN : s.rd (s.PTR num) (s.h num).size.natAbs = (view (s.h num)).d := by rw [rd_PTR]; rfl
+  have hD : s.rd (s.PTR q) (s.h q).size.natAbs = (view (s.h q)).d := by rw [rd_PTR]; rfl
+  have hNok : s.rdOk (s.PTR num) (s.h num).size.natAbs = true := by rw [rdOk_PTR]; simpa using view_fit hn
+  have hDok : s.rdOk (s.PTR q) (s.h q).size.natAbs = true := by rw [rdOk_PTR]; simpa using view_fit hq
+  unfold divexact
+  simp only [St.ABSIZ]
+  have hlt : ¬ (s.h num).size.natAbs < (s.h q).size.natAbs := by omega
+  rw [MPZ_REALLOC_noop' s q _ hfit]
+  simp only [hlt, ↓reduceIte]
+  simp only [beq_self_eq_true, Bool.or_true, if_true, hN, hD, hNok, hDok, Bool.and_self, chk_true]
+  generalize hQ : toLimbs ((s.h num).size.natAbs - (s.h q).size.natAbs + 1) (val (view (s.h num)).d / val (view (s.h q)).d) = Q
+  have hQl : Q.length = (s.h num).size.natAbs - (s.h q).size.natAbs + 1 := by rw [← hQ]; exact AliasMem.toLimbs_length _ _
+  have hQL : Limbs Q := by rw [← hQ]; exact AliasMem.Limbs_toLimbs _ _
+  rw [new_write_full Q _ hQl]
+  simp only [chk_true, Buf.read, List.drop_zero, ← hQl, List.take_length, take_normalize_length]
+  generalize Mpz.diffSign (s.SIZ num) (s.SIZ q) = neg
+  have hNl := Mpz.Norm_normalize hQL
+  have hnle := Mpz.normalize_length_le Q
+  have hqa : Q.length ≤ (s.h q).buf.alloc := by rw [hQl]; omega
+  have hs2 : (s.setSize q (sgn neg (normalize Q).length)).ok = true := by simpa using hs
+  have hb2 : BWF ((s.setSize q (sgn neg (normalize Q).length)).h q).buf := by simpa using hq.1
+  have W := Wrote.fresh (s.setSize q (sgn neg (normalize Q).length)) q (normalize Q) true hs2 rfl hb2 hNl.1
+    (by simp only [setSize_buf]; omega)
+  simp only [chk_true] at W
+  have R := W.refines (sgn neg (normalize Q).length) (by simp) (by rw [natAbs_sgn])
+  rw [natAbs_sgn, List.take_length] at R
+  have ha : 1 ≤ (s.h q).buf.alloc := by have := hq.2.1; simpa [view] using this
+  refine ⟨W.ok, ⟨W.bwf, ?_⟩, fun x hx => (W.frame x hx).trans (setSize_other _ _ _ hx), ?_, ?_, ?_⟩
+  · rw [R.view]
+    exact ⟨by simpa using ha, by rw [natAbs_sgn]; simp only [setSize_buf]; omega, by rw [natAbs_sgn], hNl.1, hNl.2⟩
+  · rw [W.gen]; simp
+  · rw [W.alloc]; simp
+  · rw [R.view, toInt_natAbs', Mpz.val_normalize, ← hQ, AliasMem.val_toLimbs]
+    apply Nat.mod_eq_of_lt
+    have hNlt : val (view (s.h num)).d < B ^ (s.h num).size.natAbs := by
+      have := val_lt _ (view_limbs hn); rwa [view_d_length hn] at this
+    have hqne : (view (s.h q)).d ≠ [] := by
+      intro e; have := view_d_length hq; rw [e] at this; simp at this; omega
+    have hDge : B ^ ((s.h q).size.natAbs - 1) ≤ val (view (s.h q)).d := by
+      have := Mpz.Norm.lower ⟨view_limbs hq, hq.2.2.2.2.2⟩ hqne; rwa [view_d_length hq] at this
+    apply Nat.div_lt_of_lt_mul
+    calc val (view (s.h num)).d < B ^ (s.h num).size.natAbs := hNlt
+      _ = B ^ ((s.h q).size.natAbs - 1) * B ^ ((s.h num).size.natAbs - (s.h q).size.natAbs + 1) := by
+          rw [← Nat.pow_add]; congr 1; omega
+      _ ≤ val (view (s.h q)).d * B ^ ((s.h num).size.natAbs - (s.h q).size.natAbs + 1) := Nat.mul_le_mul_right _ hDge
+
 
 end Mpir.AllocSafe5
